@@ -14,6 +14,7 @@ typedef struct { carquet_reader_t* rd; uint8_t* buf; size_t buf_n; int mode; } r
 static uint8_t* rd_slurp(const char* path, size_t* n) { FILE* f = fopen(path, "rb"); if (!f) return NULL; fseek(f, 0, SEEK_END); long L = ftell(f); fseek(f, 0, SEEK_SET); uint8_t* b = (uint8_t*)v_exact((size_t)L); if (L && fread(b, 1, (size_t)L, f) != (size_t)L) { fclose(f); free(b); return NULL; } fclose(f); *n = (size_t)L; return b; }
 static int rd_open(ropen_t* o, const char* path, int mode, int verify, int threads, carquet_error_t* err) {
     memset(o, 0, sizeof *o); o->mode = mode; carquet_reader_options_t ro; carquet_reader_options_init(&ro); ro.use_mmap = mode == IO_MMAP; ro.verify_checksums = verify != 0; ro.num_threads = threads;
+    { static const size_t BS[] = {65536, 0, 1, 4, 7, 8, 13, 4096, 1u << 20}; static unsigned bsi = 0; ro.buffer_size = BS[bsi++ % 9]; }   /* a tuning knob: any value must give the same content */
     if (mode == IO_BUFFER) { o->buf = rd_slurp(path, &o->buf_n); if (!o->buf) return 0; o->rd = carquet_reader_open_buffer(o->buf, o->buf_n, &ro, err); } else o->rd = carquet_reader_open(path, &ro, err);
     if (!o->rd) { free(o->buf); o->buf = NULL; return 0; } return 1;
 }
